@@ -14,6 +14,7 @@
         of `partialAnd/Or/IfThenElse/IsIn` (`andStep`, …) and the main theorem `partialE_sound`
 -/
 import CedarGo.Model.Partial
+import CedarGoProofs.Lemmas.RecordLit
 set_option linter.unusedSimpArgs false
 set_option linter.unusedVariables false
 namespace CedarGo
@@ -1140,21 +1141,49 @@ theorem evalTyped_congr (env : Env) {ns es : List Expr} (h : Pointwise env ns es
         have := ih ks.tail
         cases h1 : evalTyped ns ks.tail env <;> cases h2 : evalTyped es ks.tail env <;> simp_all [RL]
 
-theorem evalKVs_congr (env : Env) : ∀ (kes : List (String × Expr)) {ns es : List Expr}, Pointwise env ns es →
-    RL (evalKVs (rebuildKVs kes ns) env) (evalKVs (rebuildKVs kes es) env)
-  | [], _, _, _ => by simp [rebuildKVs, evalKVs, RL]
-  | (k, _) :: kes, _, _, h => by
-    cases h with
-    | nil => simp [rebuildKVs, evalKVs, RL]
-    | @cons n e ns es hne htl =>
-      simp only [rebuildKVs, evalKVs, bind, Except.bind]
-      cases hn : eval n env with
-      | error k => rw [hn] at hne; obtain ⟨k', hk'⟩ := R.err_left hne; rw [hk']; simp [RL]
-      | ok v =>
-        rw [hn] at hne; rw [R.ok_left hne]
-        simp only
-        have := evalKVs_congr env kes htl
-        cases h1 : evalKVs (rebuildKVs kes ns) env <;> cases h2 : evalKVs (rebuildKVs kes es) env <;> simp_all [RL]
+/-- the children `ns` and `es` rebuilt over the keys of `kes`, position by position -/
+def zipKVs : List (String × Expr) → List Expr → List Expr → List (String × (Expr × Expr))
+  | (k, _) :: kes, n :: ns, e :: es => (k, (n, e)) :: zipKVs kes ns es
+  | _, _, _ => []
+
+theorem zipKVs_spec (env : Env) : ∀ (kes : List (String × Expr)) {ns es : List Expr}, Pointwise env ns es →
+    rebuildKVs kes ns = (zipKVs kes ns es).map (fun z => (z.1, z.2.1)) ∧
+    rebuildKVs kes es = (zipKVs kes ns es).map (fun z => (z.1, z.2.2)) ∧
+    ∀ z ∈ zipKVs kes ns es, R (eval z.2.1 env) (eval z.2.2 env)
+  | [], _, _, h => by cases h <;> simp [rebuildKVs, zipKVs]
+  | (k, x) :: kes, _, _, .nil => by simp [rebuildKVs, zipKVs]
+  | (k, x) :: kes, _, _, .cons hne htl => by
+    obtain ⟨h1, h2, h3⟩ := zipKVs_spec env kes htl
+    refine ⟨by simp [rebuildKVs, zipKVs, h1], by simp [rebuildKVs, zipKVs, h2], ?_⟩
+    intro z hz
+    simp only [zipKVs, List.mem_cons] at hz
+    rcases hz with rfl | hz
+    · exact hne
+    · exact h3 z hz
+
+theorem evalKVs_congr_map (env : Env) : ∀ (L : List (String × (Expr × Expr))),
+    (∀ z ∈ L, R (eval z.2.1 env) (eval z.2.2 env)) →
+    RL (evalKVs (L.map (fun z => (z.1, z.2.1))) env) (evalKVs (L.map (fun z => (z.1, z.2.2))) env)
+  | [], _ => by simp [evalKVs, RL]
+  | (k, (n, e)) :: L, h => by
+    have hne : R (eval n env) (eval e env) := h (k, (n, e)) (by simp)
+    have ih := evalKVs_congr_map env L (fun z hz => h z (by simp [hz]))
+    simp only [List.map_cons, evalKVs, bind, Except.bind]
+    cases hn : eval n env with
+    | error k => rw [hn] at hne; obtain ⟨k', hk'⟩ := R.err_left hne; rw [hk']; simp [RL]
+    | ok v =>
+      rw [hn] at hne; rw [R.ok_left hne]
+      simp only
+      cases h1 : evalKVs (L.map (fun z => (z.1, z.2.1))) env <;> cases h2 : evalKVs (L.map (fun z => (z.1, z.2.2))) env <;>
+        simp_all [RL]
+
+/-- a record literal over children that agree position by position: both evaluate the same positions (the last entry of
+    every key) in the same (key) order -/
+theorem evalRecord_congr (env : Env) (kes : List (String × Expr)) {ns es : List Expr} (h : Pointwise env ns es) :
+    RL (evalKVs (canonKVs (rebuildKVs kes ns)) env) (evalKVs (canonKVs (rebuildKVs kes es)) env) := by
+  obtain ⟨h1, h2, h3⟩ := zipKVs_spec env kes h
+  rw [h1, h2, canonKVs_map (fun p : Expr × Expr => p.1), canonKVs_map (fun p : Expr × Expr => p.2)]
+  exact evalKVs_congr_map env _ (fun z hz => h3 z (canonKVs_subset _ z hz))
 
 theorem evalList_strict (env : Env) : ∀ es : List Expr, (∃ e ∈ es, ∃ k, eval e env = .error k) → ∃ k, evalList es env = .error k
   | [], h => by simp at h
@@ -1187,21 +1216,53 @@ theorem evalTyped_strict (env : Env) : ∀ (es : List Expr) (ks : List Kind),
         · obtain ⟨k', hk'⟩ := evalTyped_strict env es ks.tail ⟨e', hmem, k, hk⟩
           exact ⟨k', by simp [hk']⟩
 
-theorem evalKVs_strict (env : Env) : ∀ (kes : List (String × Expr)) (es : List Expr), es.length = kes.length →
-    (∃ e ∈ es, ∃ k, eval e env = .error k) → ∃ k, evalKVs (rebuildKVs kes es) env = .error k
-  | [], [], _, h => by simp at h
-  | [], _ :: _, hl, _ => by simp at hl
-  | _ :: _, [], hl, _ => by simp at hl
-  | (k0, _) :: kes, e :: es, hl, h => by
-    simp only [rebuildKVs, evalKVs, bind, Except.bind]
-    cases he : eval e env with
-    | error k => exact ⟨k, rfl⟩
-    | ok v =>
-      obtain ⟨e', hmem, k, hk⟩ := h
-      rcases List.mem_cons.mp hmem with rfl | hmem
-      · rw [he] at hk; cases hk
-      · obtain ⟨k', hk'⟩ := evalKVs_strict env kes es (by simpa using hl) ⟨e', hmem, k, hk⟩
-        exact ⟨k', by simp [hk']⟩
+theorem rebuildKVs_keys : ∀ (kes : List (String × Expr)) (es : List Expr), es.length = kes.length →
+    (rebuildKVs kes es).map (·.1) = kes.map (·.1)
+  | [], [], _ => rfl
+  | [], _ :: _, hl => by simp at hl
+  | _ :: _, [], hl => by simp at hl
+  | (k0, _) :: kes, e :: es, hl => by simp [rebuildKVs, rebuildKVs_keys kes es (by simpa using hl)]
+
+theorem rebuildKVs_mem : ∀ (kes : List (String × Expr)) (es : List Expr), es.length = kes.length →
+    ∀ e ∈ es, ∃ k, (k, e) ∈ rebuildKVs kes es
+  | [], [], _, e, h => by cases h
+  | [], _ :: _, hl, _, _ => by simp at hl
+  | _ :: _, [], hl, _, _ => by simp at hl
+  | (k0, _) :: kes, e0 :: es, hl, e, h => by
+    rcases List.mem_cons.mp h with rfl | h
+    · exact ⟨k0, by simp [rebuildKVs]⟩
+    · obtain ⟨k, hk⟩ := rebuildKVs_mem kes es (by simpa using hl) e h
+      exact ⟨k, by simp [rebuildKVs, hk]⟩
+
+theorem keysNodup_iff : ∀ (kes : List (String × Expr)), keysNodup kes = true ↔ (kes.map (·.1)).Nodup
+  | [] => by simp [keysNodup]
+  | (k, e) :: kes => by
+    simp only [keysNodup, Bool.and_eq_true, Bool.not_eq_true', List.map_cons, List.nodup_cons, keysNodup_iff kes]
+    constructor
+    · rintro ⟨h1, h2⟩
+      refine ⟨?_, h2⟩
+      intro hm
+      obtain ⟨kv, hkv, hk⟩ := List.mem_map.mp hm
+      have : (kes.any fun kv => kv.1 == k) = true := List.any_eq_true.mpr ⟨kv, hkv, by simp [hk]⟩
+      rw [this] at h1; cases h1
+    · rintro ⟨h1, h2⟩
+      refine ⟨?_, h2⟩
+      cases hany : kes.any fun kv => kv.1 == k with
+      | false => rfl
+      | true =>
+        obtain ⟨kv, hkv, hk⟩ := List.any_eq_true.mp hany
+        exact absurd (List.mem_map.mpr ⟨kv, hkv, by simpa using hk⟩) h1
+
+/-- with distinct keys every entry of a record literal is evaluated: an erroring child makes the literal fail -/
+theorem evalRecord_strict (env : Env) (kes : List (String × Expr)) (hk : keysNodup kes = true) (es : List Expr)
+    (hl : es.length = kes.length) (h : ∃ e ∈ es, ∃ k, eval e env = .error k) :
+    ∃ k, evalKVs (canonKVs (rebuildKVs kes es)) env = .error k := by
+  obtain ⟨e, hmem, k, hek⟩ := h
+  obtain ⟨key, hkey⟩ := rebuildKVs_mem kes es hl e hmem
+  have hnd : ((rebuildKVs kes es).map (·.1)).Nodup := by
+    rw [rebuildKVs_keys kes es hl]; exact (keysNodup_iff kes).mp hk
+  have hc : (key, e) ∈ canonKVs (rebuildKVs kes es) := (canonKVs_mem_iff _ hnd _).mpr hkey
+  exact evalKVs_error_of_mem _ env (key, e) k hc hek
 
 theorem c06_evalList_lits (env env' : Env) : ∀ ns : List Expr, (∀ n ∈ ns, n.isLit = true) → evalList ns env = evalList ns env'
   | [], _ => rfl
@@ -1216,13 +1277,23 @@ theorem c06_evalTyped_lits (env env' : Env) : ∀ (ns : List Expr) (ks : List Ki
     obtain ⟨v, rfl⟩ := isLit_iff.mp (h n (by simp))
     simp only [evalTyped, eval, c06_evalTyped_lits env env' ns ks.tail (fun x hx => h x (by simp [hx]))]
 
-theorem c06_evalKVs_lits (env env' : Env) : ∀ (kes : List (String × Expr)) (ns : List Expr), (∀ n ∈ ns, n.isLit = true) →
-    evalKVs (rebuildKVs kes ns) env = evalKVs (rebuildKVs kes ns) env'
-  | [], _, _ => by simp [rebuildKVs, evalKVs]
-  | _ :: _, [], _ => by simp [rebuildKVs, evalKVs]
-  | (k, _) :: kes, n :: ns, h => by
-    obtain ⟨v, rfl⟩ := isLit_iff.mp (h n (by simp))
-    simp only [rebuildKVs, evalKVs, eval, c06_evalKVs_lits env env' kes ns (fun x hx => h x (by simp [hx]))]
+theorem rebuildKVs_lits : ∀ (kes : List (String × Expr)) (ns : List Expr), (∀ n ∈ ns, n.isLit = true) →
+    ∀ ke ∈ rebuildKVs kes ns, ke.2.isLit = true
+  | [], _, _, ke, h => by simp [rebuildKVs] at h
+  | _ :: _, [], _, ke, h => by simp [rebuildKVs] at h
+  | (k, _) :: kes, n :: ns, hn, ke, h => by
+    simp only [rebuildKVs, List.mem_cons] at h
+    rcases h with rfl | h
+    · exact hn n (by simp)
+    · exact rebuildKVs_lits kes ns (fun x hx => hn x (by simp [hx])) ke h
+
+theorem c06_evalRecord_lits (env env' : Env) (kes : List (String × Expr)) (ns : List Expr) (h : ∀ n ∈ ns, n.isLit = true) :
+    eval (.record (rebuildKVs kes ns)) env = eval (.record (rebuildKVs kes ns)) env' := by
+  apply eval_recordLit_congr
+  apply List.map_congr_left
+  intro ke hke
+  obtain ⟨v, hv⟩ := isLit_iff.mp (rebuildKVs_lits kes ns h ke hke)
+  simp only [hv, eval]
 
 /-- an n-ary node shape over `len` children -/
 structure Nary (len : Nat) (node : List Expr → Expr) : Prop where
@@ -1236,8 +1307,6 @@ theorem R_of_RL_bind {α : Type} {a b : Except Err α} (f : α → Res) (h : RL 
   exact R.refl _
 
 theorem eval_set (es : List Expr) (env : Env) : eval (.set es) env = (evalList es env).bind (fun vs => .ok (mkSet vs)) := rfl
-theorem eval_record (kes : List (String × Expr)) (env : Env) :
-    eval (.record kes) env = (evalKVs kes env).bind (fun kvs => .ok (mkRecord kvs)) := rfl
 
 theorem nary_set (len : Nat) : Nary len .set where
   congr env ns es h := by rw [eval_set, eval_set]; exact R_of_RL_bind _ (evalList_congr env h)
@@ -1247,12 +1316,13 @@ theorem nary_set (len : Nat) : Nary len .set where
   closed env env' ns h := by rw [eval_set, eval_set, c06_evalList_lits env env' ns h]
   notLit _ := rfl
 
-theorem nary_record (kes : List (String × Expr)) : Nary kes.length (fun ns => .record (rebuildKVs kes ns)) where
-  congr env ns es h := by rw [eval_record, eval_record]; exact R_of_RL_bind _ (evalKVs_congr env kes h)
+theorem nary_record (kes : List (String × Expr)) (hk : keysNodup kes = true) :
+    Nary kes.length (fun ns => .record (rebuildKVs kes ns)) where
+  congr env ns es h := by rw [eval_recordLit, eval_recordLit]; exact R_of_RL_bind _ (evalRecord_congr env kes h)
   strict env es hl h := by
-    obtain ⟨k, hk⟩ := evalKVs_strict env kes es hl h
-    exact ⟨k, by rw [eval_record, hk]; rfl⟩
-  closed env env' ns h := by rw [eval_record, eval_record, c06_evalKVs_lits env env' kes ns h]
+    obtain ⟨k, hk⟩ := evalRecord_strict env kes hk es hl h
+    exact ⟨k, by rw [eval_recordLit, hk]; rfl⟩
+  closed env env' ns h := c06_evalRecord_lits env env' kes ns h
   notLit _ := rfl
 
 /-- `newExtensionEval` as a function of how the arguments evaluate -/
@@ -1402,67 +1472,80 @@ theorem completesVia_of_parts {γ : Value → Value} [Completion γ] {envH env :
 
 mutual
 theorem partialE_sound {γ : Value → Value} [Completion γ] {envH env : Env} (C : CompletesVia γ envH env) :
-    ∀ e : Expr, Sound γ env e (partialE envH e)
-  | .lit v => by
+    ∀ e : Expr, e.recKeysDistinct = true → Sound γ env e (partialE envH e)
+  | .lit v, _ => by
       simpa only [partialE] using lit_sound γ env v
-  | .var x => by
+  | .var x, _ => by
       simpa only [partialE] using C.var x
-  | .unop op e => by
+  | .unop op e, hk => by
+      simp only [Expr.recKeysDistinct] at hk
       simp only [partialE]
-      exact combine1_sound (un_unop op) C.ent (Sound.whole (partialE_sound C e)) (PR.whole_clean _)
-  | .binop op l r => by
+      exact combine1_sound (un_unop op) C.ent (Sound.whole (partialE_sound C e hk)) (PR.whole_clean _)
+  | .binop op l r, hk => by
+      simp only [Expr.recKeysDistinct, Bool.and_eq_true] at hk
       cases op
       case and =>
         simp only [partialE]
-        exact andStep_sound C.ent (partialE_sound C l) (partialE_sound C r)
+        exact andStep_sound C.ent (partialE_sound C l hk.1) (partialE_sound C r hk.2)
       case or =>
         simp only [partialE]
-        exact orStep_sound C.ent (partialE_sound C l) (partialE_sound C r)
+        exact orStep_sound C.ent (partialE_sound C l hk.1) (partialE_sound C r hk.2)
       all_goals
         simp only [partialE]
         refine combine2_strict_sound _ ?_ ?_ C.ent
-          (Sound.whole (partialE_sound C l)) (PR.whole_clean _) (Sound.whole (partialE_sound C r)) (PR.whole_clean _) <;> decide
-  | .ite c t e => by
+          (Sound.whole (partialE_sound C l hk.1)) (PR.whole_clean _) (Sound.whole (partialE_sound C r hk.2)) (PR.whole_clean _) <;> decide
+  | .ite c t e, hk => by
+      simp only [Expr.recKeysDistinct, Bool.and_eq_true] at hk
       simp only [partialE]
-      exact iteStep_sound (partialE_sound C c) (partialE_sound C t) (partialE_sound C e)
-  | .access e a => by
+      exact iteStep_sound (partialE_sound C c hk.1.1) (partialE_sound C t hk.1.2) (partialE_sound C e hk.2)
+  | .access e a, hk => by
+      simp only [Expr.recKeysDistinct] at hk
       simp only [partialE]
-      exact access_sound C.ent a (partialE_sound C e)
-  | .has e a => by
+      exact access_sound C.ent a (partialE_sound C e hk)
+  | .has e a, hk => by
+      simp only [Expr.recKeysDistinct] at hk
       simp only [partialE]
-      exact has_sound C.ent a (partialE_sound C e)
-  | .like e p => by
+      exact has_sound C.ent a (partialE_sound C e hk)
+  | .like e p, hk => by
+      simp only [Expr.recKeysDistinct] at hk
       simp only [partialE]
-      exact combine1_sound (un_like p) C.ent (Sound.whole (partialE_sound C e)) (PR.whole_clean _)
-  | .is e ty => by
+      exact combine1_sound (un_like p) C.ent (Sound.whole (partialE_sound C e hk)) (PR.whole_clean _)
+  | .is e ty, hk => by
+      simp only [Expr.recKeysDistinct] at hk
       simp only [partialE]
-      exact combine1_sound (un_is ty) C.ent (Sound.whole (partialE_sound C e)) (PR.whole_clean _)
-  | .isIn e ty r => by
+      exact combine1_sound (un_is ty) C.ent (Sound.whole (partialE_sound C e hk)) (PR.whole_clean _)
+  | .isIn e ty r, hk => by
+      simp only [Expr.recKeysDistinct, Bool.and_eq_true] at hk
       simp only [partialE]
-      exact isInStep_sound ty C.ent (partialE_sound C e) (partialE_sound C r)
-  | .set es => by
+      exact isInStep_sound ty C.ent (partialE_sound C e hk.1) (partialE_sound C r hk.2)
+  | .set es, hk => by
+      simp only [Expr.recKeysDistinct] at hk
       simp only [partialE]
-      exact finishList_sound (envH := envH) (nary_set es.length) rfl (partialList_sound C es)
-  | .record kes => by
+      exact finishList_sound (envH := envH) (nary_set es.length) rfl (partialList_sound C es hk)
+  | .record kes, hk => by
+      simp only [Expr.recKeysDistinct, Bool.and_eq_true] at hk
       simp only [partialE]
-      have := finishList_sound (γ := γ) (env := env) (envH := envH) (nary_record kes) (es := kes.map (·.2)) (by simp)
-        (partialKVs_sound C kes)
+      have := finishList_sound (γ := γ) (env := env) (envH := envH) (nary_record kes hk.1) (es := kes.map (·.2)) (by simp)
+        (partialKVs_sound C kes hk.2)
       simpa only [rebuildKVs_self] using this
-  | .call fn args => by
+  | .call fn args, hk => by
+      simp only [Expr.recKeysDistinct] at hk
       simp only [partialE]
-      exact finishList_sound (envH := envH) (nary_call args.length fn) rfl (partialList_sound C args)
+      exact finishList_sound (envH := envH) (nary_call args.length fn) rfl (partialList_sound C args hk)
 theorem partialList_sound {γ : Value → Value} [Completion γ] {envH env : Env} (C : CompletesVia γ envH env) :
-    ∀ es : List Expr, SoundL env es (partialList envH es)
-  | [] => by simp [partialList, SoundL, Pointwise.nil]
-  | e :: es => by
+    ∀ es : List Expr, recKeysDistinctL es = true → SoundL env es (partialList envH es)
+  | [], _ => by simp [partialList, SoundL, Pointwise.nil]
+  | e :: es, hk => by
+      simp only [recKeysDistinctL, Bool.and_eq_true] at hk
       simp only [partialList]
-      exact consR_sound (Sound.whole (partialE_sound C e)) (PR.whole_clean _) (partialList_sound C es)
+      exact consR_sound (Sound.whole (partialE_sound C e hk.1)) (PR.whole_clean _) (partialList_sound C es hk.2)
 theorem partialKVs_sound {γ : Value → Value} [Completion γ] {envH env : Env} (C : CompletesVia γ envH env) :
-    ∀ kes : List (String × Expr), SoundL env (kes.map (·.2)) (partialKVs envH kes)
-  | [] => by simp [partialKVs, SoundL, Pointwise.nil]
-  | (k, e) :: kes => by
+    ∀ kes : List (String × Expr), recKeysDistinctKVs kes = true → SoundL env (kes.map (·.2)) (partialKVs envH kes)
+  | [], _ => by simp [partialKVs, SoundL, Pointwise.nil]
+  | (k, e) :: kes, hk => by
+      simp only [recKeysDistinctKVs, Bool.and_eq_true] at hk
       simp only [partialKVs, List.map_cons]
-      exact consR_sound (Sound.whole (partialE_sound C e)) (PR.whole_clean _) (partialKVs_sound C kes)
+      exact consR_sound (Sound.whole (partialE_sound C e hk.1)) (PR.whole_clean _) (partialKVs_sound C kes hk.2)
 end
 
 end CedarGo
